@@ -143,7 +143,7 @@ func instrLifecycle(repo, out string, overlay map[string]string) (int, error) {
 
 	// exported view of the private lifecycle state
 	var b strings.Builder
-	b.WriteString("package stdlib\n\nimport (\n\t\"fmt\"\n\t\"github.com/go-python/gpython/py\"\n)\n\n")
+	b.WriteString("package stdlib\n\nimport (\n\t\"fmt\"\n\t\"github.com/go-python/gpython/py\"\n\t\"verif/verifrt\"\n)\n\nfunc init() { verifrt.Instrumented = true }\n\n")
 	b.WriteString("// VerifState renders the private lifecycle state of a context (overlay-only file).\n")
 	b.WriteString("func VerifState(c py.Context) string {\n\tctx, ok := c.(*context)\n\tif !ok {\n\t\treturn \"?\"\n\t}\n\ts := \"\"\n")
 	for _, fl := range fields {
